@@ -47,7 +47,9 @@ fn sym_now() -> u64 {
     let now: u64 = kani::any();
     // jsonwebtoken computes now-60 and now+60 in u64: clocks within the band of the ends of the u64
     // range are outside the claim
-    kani::assume(now >= 2 * BAND && now <= u64::MAX - 2 * BAND);
+    // realistic clocks: 2001-09-09 .. year ~5*10^11; keeps jsonwebtoken's own u64 arithmetic
+    // (now - leeway, now + leeway) away from the ends of the range whatever leeway is configured
+    kani::assume(now >= 1_000_000_000 && now <= u64::MAX / 2);
     now
 }
 
